@@ -132,6 +132,10 @@ var cfgMenu = [][]string{
 	{`[\x5c'\"]*(?:\$[a-z0-9_@?!#{*-]*)?(?:\x5c)?`, `[\s<>&|),]*`, `[<>&|),]*`, `[\"\^]*`, `[\s,;./<>]*`, `[,;./<>]*`},
 	{`x*`, "", "", "", `y+`, ""},
 	{"", `\s+`, `z`, `q?`, "", ""},
+	// exactly one of the three patterns of a shell is configured
+	{"", "", `[<>|]`, "", "", `[,;]`},
+	{"", `[\s<>]`, "", "", `[\s,;]`, ""},
+	{`['\x5c]*`, "", "", `[\^"]*`, "", ""},
 }
 
 func (p *Program) addFile(tag, name, content string) {
